@@ -83,10 +83,18 @@ impl PEnv {
 /// Runs the history, then drops the writer (call id = ops.len()).
 /// The row of operation i carries idx = i.
 pub fn exec_complete(pal: &Palette, ops: &[POp], env: &PEnv) -> Vec<CallRes> {
-    let mut w = Writer::new(
-        ShapeWriter::with_shx(env.shp.clone(), env.shx.clone()),
-        table::table_writer(env.dbf.clone()),
-    );
+    exec_complete_on(pal, ops, env, false)
+}
+
+/// `pre_typed`: the complete writer is built over a shape writer that has already received shape a (call id
+/// 1000), so the file has its type before the first call through the complete writer
+pub fn exec_complete_on(pal: &Palette, ops: &[POp], env: &PEnv, pre_typed: bool) -> Vec<CallRes> {
+    let mut sw = ShapeWriter::with_shx(env.shp.clone(), env.shx.clone());
+    if pre_typed {
+        env.set_call(1000);
+        write_shape(&mut sw, &pal.lib[0]).expect("pre-write on a healthy destination");
+    }
+    let mut w = Writer::new(sw, table::table_writer(env.dbf.clone()));
     let mut results = vec![];
     for (i, op) in ops.iter().enumerate() {
         env.set_call(i as u32);
